@@ -37,13 +37,25 @@ type c08Case struct {
 	Lead   string // text between line start and the keyword (sets the column)
 	Pieces []yang.Piece
 	Joins  []string // trivia around each '+', len = len(Pieces)-1, each "<before>+<after>"
+	Sep    string   // what separates the keyword from the argument ("" = one blank)
+	Tail   string   // what stands between the argument and the ';'
 }
+
+// c08Seps, c08Tails: separators after the (unquoted) keyword and after the argument; a line break, LF or CRLF,
+// may follow an unquoted token directly.
+var c08Seps = []string{"\t", "\n", "\r\n", "\r\n  ", " \r\n\t", "\n\n    ", " /* c */ ", "\t// lc\r\n", "\r\n\r\n"}
+var c08Tails = []string{" ", "\t", "\n", "\r\n", "\r\n  ", " \r\n", "\n  ", " // lc\n", "\r\n// lc\r\n", " /* c */ "}
 
 func (c *c08Case) text() (string, []int) {
 	var b strings.Builder
 	b.WriteString("module m {\n  namespace \"urn:m\";\n  prefix m;\n")
 	b.WriteString(c.Lead)
-	b.WriteString("x:s ")
+	b.WriteString("x:s")
+	if c.Sep == "" {
+		b.WriteString(" ")
+	} else {
+		b.WriteString(c.Sep)
+	}
 	cols := make([]int, len(c.Pieces))
 	for i, p := range c.Pieces {
 		if i > 0 {
@@ -62,6 +74,7 @@ func (c *c08Case) text() (string, []int) {
 			b.WriteString("\"" + p.Raw + "\"")
 		}
 	}
+	b.WriteString(c.Tail)
 	b.WriteString(";\n}\n")
 	return b.String(), cols
 }
@@ -208,6 +221,12 @@ func c08Gen(r *core.Rng) *c08Case {
 		if i > 0 {
 			c.Joins = append(c.Joins, core.Pick(r, c08Trivia)+"+"+core.Pick(r, c08Trivia))
 		}
+	}
+	if r.Chance(1, 4) {
+		c.Sep = core.Pick(r, c08Seps)
+	}
+	if r.Chance(1, 3) {
+		c.Tail = core.Pick(r, c08Tails)
 	}
 	if n >= 2 && r.Chance(1, 5) {
 		// the same source text twice in one argument (each occurrence is decoded at its own column)
